@@ -641,6 +641,46 @@ example :
 /-- the hypothesis of `server_trailing_bytes` on `handshake ‖ 3 bytes` -/
 example : O4.Handshake.markPos O4.E2E.toyPrimsR toySrv (toyC.blob ++ [1, 2, 3]) = none := by decide +kernel
 
+/-! ## temporary read errors (a read deadline that fires, …) lose nothing -/
+
+private theorem processBuffer_settled (c : Crypto) (srv : Bool) (rx : Rx) (fuel : Nat)
+    (hs : Settled c srv rx) : processBuffer c srv fuel rx = (rx, none) := by
+  unfold Settled at hs
+  cases fuel with
+  | zero => rfl
+  | succ n => rw [processBuffer, hs]
+
+/-- **a failing network read leaves the receive side untouched**: in a settled state (every state
+    `Read` blocks in, `no_stall`) a `readPackets` whose underlying `Read` returns `0, err` reports
+    that error and keeps `receiveBuffer` — the partial frame buffered so far —, the decoder state
+    (`nextLength`, nonce counter), the decoded bytes and the seeds exactly as they were. -/
+theorem read_error_keeps_buffer (c : Crypto) (srv : Bool) (rx : Rx) (cls : String)
+    (hs : Settled c srv rx) :
+    readPackets c srv rx (.fail [] cls) = (rx, some (.net cls)) := by
+  have h : ({ rx with rxBuf := rx.rxBuf ++ [] } : Rx) = rx := by simp
+  simp only [readPackets, h, processBuffer_settled c srv rx _ hs]
+
+/-- **`Read` reports the error and the stream goes on as if nothing had happened**: with nothing
+    decoded pending, `Read` hands the caller the network error, no bytes, the unchanged state and
+    the untouched rest of the network's future — so a caller that clears its deadline and keeps
+    reading is, from then on, in exactly the situation `chunk_invariance`/`delivers_exactly` speak
+    about. -/
+theorem read_error_is_transparent (c : Crypto) (srv : Bool) (n : Nat) (rx : Rx) (cls : String)
+    (evs : List NetEv) (hs : Settled c srv rx) (hd : rx.decoded = []) :
+    read c srv n rx (.fail [] cls :: evs) = .ret rx [] (some (.net cls)) evs := by
+  have hrp := read_error_keeps_buffer c srv rx cls hs
+  obtain ⟨dec, buf, decoded, seeds⟩ := rx
+  simp only at hd
+  subst hd
+  unfold Obfs4.read
+  simp [hrp]
+
+/-- non-vacuity: half a frame buffered, a timeout, then the rest: the payload is delivered -/
+example :
+    let w := wire toyCrypto [pktA]
+    let r := session toyCrypto true [8, 8] Rx.init [.data (w.take 9), .fail [] "timeout", .data (w.drop 9)]
+    r.1 = [104, 105] ∧ r.2.1 = [.net "timeout"] := by decide +kernel
+
 theorem toyCrypto_ok : CryptoOK toyCrypto := Obfs4.toyCrypto_ok
 
 end C01
